@@ -344,7 +344,7 @@ def observe(raw):
 
 
 def _phi(z):
-  return 0.5 * (1.0 + math.erf(z / math.sqrt(2.0)))
+  return 0.5 * math.erfc(-z / math.sqrt(2.0))      # erfc: accurate in the lower tail too (1 + erf cancels below z ~ -6)
 
 
 def _pdf(z):
